@@ -190,6 +190,11 @@ def hello_stream(g, rng, udp, n_rand):
             out.append(('wrong-acf-type', wrap(tscf, g.gpc(b'x\0', mtype=mt))))
         out.append(('embedded-nul', wrap(tscf, g.gpc(b'ab\0cd\0ef'))))
         out += [('mutated', m) for m in mutate(rng, base, n_rand)]
+        # the buffer of main keeps what earlier datagrams left: a well-formed long GPC message without any NUL, right where the
+        # parser reads, behind datagrams that end inside or just behind their headers
+        residue = (bytes(hdr) + g.gpc(bytes([0x41 + i % 26 for i in range(88)]), qlen=24) + bytes([0x5a]) * 1500)[:1500]
+        for k in sorted(set([0, 1, 4, 5, 8, 11, 12, 13, 16, 19, 20, 23, 24, 27, 28, hdr - 1, hdr, hdr + 1, hdr + 7, hdr + 8, hdr + 9])):
+            out.append(('short-over-residue', base[:k], residue))
     out += [('fill', bytes([v]) * n) for v in (0, 0xff, 0x0a, 0x0b) for n in (20, 36, 1500)]
     out += [('random', rng.bytes(rng.choice([0, 1, 19, 20, 36, 100, 1500]))) for _ in range(n_rand)]
     out.append(('oversize', bytes([0x0b]) * 1600))
@@ -221,6 +226,10 @@ def vss_stream(g, rng, udp, n_rand):
         out.append(('embedded-nul', wrap(tscf, g.vss(0, struct.pack('>H', 5) + b'a\0b\0c', 9, flt()))))
         out.append(('wrong-acf-type', wrap(tscf, g.vss(1, b'\0\0\0\1', 9, flt(), mtype=5))))
         out += [('mutated', m) for base in (st, io) for m in mutate(rng, base, n_rand // 2)]
+        # residue of an earlier datagram: a well-formed interop message with a long path right where the parser reads
+        residue = (bytes(hdr) + g.vss(0, struct.pack('>H', 1300) + bytes([0x61 + i % 26 for i in range(1300)]), 9, flt()) + bytes(1500))[:1500]
+        for k in sorted(set([0, 1, 4, 8, 12, 13, 16, 20, 24, 25, 28, hdr - 1, hdr, hdr + 1, hdr + 11, hdr + 12, hdr + 13, hdr + 14, hdr + 15, hdr + 16])):
+            out.append(('short-over-residue', io[:k], residue))
     out += [('fill', bytes([v]) * n) for v in (0, 0xff, 0x84, 0x85) for n in (26, 42, 1500)]
     out += [('random', rng.bytes(rng.choice([0, 1, 25, 26, 42, 100, 1500]))) for _ in range(n_rand)]
     return out
@@ -353,9 +362,11 @@ def sessions_for(ctx, tier, seed):
                 S.append({'listener': 'can', 'mode': {'udp': udp, 'fd': fd}, 'id': 'can-%d%d-%d' % (udp, fd, i), 'args': ['udp' if udp else 'raw', 'fd' if fd else 'cc'],
                           'dgrams': [(t[0], t[1]) for t in ch], 'stale': {j: t[2] for j, t in enumerate(ch) if len(t) > 2}})
         for i, ch in enumerate(chunks(hello_stream(g, rng, udp, n_rand), 60)):
-            S.append({'listener': 'hello', 'mode': {'udp': udp}, 'id': 'hello-%d-%d' % (udp, i), 'args': ['-u'] if udp else [], 'dgrams': ch})
+            S.append({'listener': 'hello', 'mode': {'udp': udp}, 'id': 'hello-%d-%d' % (udp, i), 'args': ['-u'] if udp else [],
+                      'dgrams': [(t[0], t[1]) for t in ch], 'stale': {j: t[2] for j, t in enumerate(ch) if len(t) > 2}})
         for i, ch in enumerate(chunks(vss_stream(g, rng, udp, n_rand), 60)):
-            S.append({'listener': 'vss', 'mode': {'udp': udp}, 'id': 'vss-%d-%d' % (udp, i), 'args': ['-u', 'aa:bb:cc:dd:ee:ff'] if udp else ['aa:bb:cc:dd:ee:ff'], 'dgrams': ch})
+            S.append({'listener': 'vss', 'mode': {'udp': udp}, 'id': 'vss-%d-%d' % (udp, i), 'args': ['-u', 'aa:bb:cc:dd:ee:ff'] if udp else ['aa:bb:cc:dd:ee:ff'],
+                      'dgrams': [(t[0], t[1]) for t in ch], 'stale': {j: t[2] for j, t in enumerate(ch) if len(t) > 2}})
     for i in range(2 if tier == 'quick' else 8):
         S.append({'listener': 'aaf', 'mode': {}, 'id': 'aaf-%d' % i, 'args': [], 'dgrams': aaf_stream(g, rng, n_rand)})
         S.append({'listener': 'cvf', 'mode': {}, 'id': 'cvf-%d' % i, 'args': [], 'dgrams': cvf_stream(g, rng, n_rand)})
@@ -373,10 +384,10 @@ def oracle_lines(s):
     if L == 'can':
         st = s.get('stale', {})
         return [], ['XL %d %d %s %s' % (s['mode']['udp'], s['mode']['fd'], hx(d), ('S' + st[j].hex()) if j in st else '%02x' % exlib.PATTERN) for j, (_, d) in enumerate(s['dgrams'])]
-    if L == 'hello':
-        return ['XH0 %02x' % exlib.PATTERN], ['XH %d %s' % (s['mode']['udp'], hx(d)) for _, d in s['dgrams']]
-    if L == 'vss':
-        return ['XV0 %02x' % exlib.PATTERN], ['XV %d %s' % (s['mode']['udp'], hx(d)) for _, d in s['dgrams']]
+    if L in ('hello', 'vss'):
+        st = s.get('stale', {})
+        c = 'XH' if L == 'hello' else 'XV'
+        return ['%s0 %02x' % (c, exlib.PATTERN)], ['%s %d %s%s' % (c, s['mode']['udp'], hx(d), (' S' + st[j].hex()) if j in st else '') for j, (_, d) in enumerate(s['dgrams'])]
     if L == 'aaf':
         return ['XA0'], ['XA %s' % hx(d) for _, d in s['dgrams']]
     if L == 'cvf':
